@@ -322,6 +322,37 @@ func runC01(c *h.Ctx) {
 			}
 		}
 	}
+	// an operand that is not a single number (nothing, several items, a
+	// non-number) next to an operand that raises a non-suppressible error
+	for _, l := range []string{"$.nokey", "$.a[*]", "$.s", "$.a", "$.n", "$.a[0]", "$.e[*]", `"x"`, "null", "$.a[5]"} {
+		for _, rgt := range []string{"$missing", "$.d.timestamp_tz()", "$.n.decimal(0)", `$.d.datetime("HH24")`, "$.n", "$.s.double()", "$.n / 0", "$arr"} {
+			for _, op := range []string{"+", "-", "*", "/", "%", "==", "<"} {
+				for form := 0; form < 4; form++ {
+					k++
+					if !c.Mine(k) {
+						continue
+					}
+					a, b := l, rgt
+					if form%2 == 1 {
+						a, b = rgt, l
+					}
+					txt := a + " " + op + " " + b
+					if form >= 2 {
+						txt = "$ ? ((" + strings.ReplaceAll(a, "$.", "@.") + " " + op + " " + strings.ReplaceAll(b, "$.", "@.") + ") " + map[bool]string{true: "== 1", false: "is unknown"}[op != "==" && op != "<"] + ")"
+					}
+					for v := 0; v < 4; v++ {
+						mode := map[bool]string{true: "strict ", false: ""}[v&1 != 0]
+						ec, err := CaseFrom(h.Case{Path: mode + txt, Doc: `{"a":[1,2],"n":3,"s":"x","d":"2024-06-14","e":[]}`, UseNum: v&2 != 0, Vars: stdVars, Silent: (k+v)%3 == 0})
+						if err != nil {
+							c.Count("gen.unparsable", 1)
+							continue
+						}
+						checkC01(c, ec)
+					}
+				}
+			}
+		}
+	}
 	// datetime items of different types compared in both orders under WithTZ
 	// in several context zones: instants within a zone offset of a midnight
 	dts := []string{"2024-06-14", "2024-06-13", "2024-06-14T00:00:00", "2024-06-13T20:00:00+00:00", "2024-06-14T03:00:00+00:00", "2024-06-13T14:30:00+00:00", "2024-06-14T07:59:59-08:00", "2024-06-13T18:30:00+00:00",
